@@ -67,7 +67,11 @@ class JokerSamples:
         self.tbl = QTable()
         if isinstance(samples, (Row, Table, QTable)):
             meta = samples.meta.copy()
-            t_ref = meta.pop("t_ref", t_ref)
+            # a reference time stored with the table wins; a missing one (None) must
+            # not discard the t_ref passed to the initializer
+            meta_t_ref = meta.pop("t_ref", None)
+            if meta_t_ref is not None:
+                t_ref = meta_t_ref
             poly_trend = meta.pop("poly_trend", poly_trend)
             n_offsets = meta.pop("n_offsets", n_offsets)
             kwargs.update(meta)
